@@ -60,4 +60,21 @@ PROPS = {
                        "value) for all comparators satisfying CmpLaws (proved for all built-in types); correspondence: every answer and the "
                        "committed contents equal MultiSpec; oracle: nested sorted vectors ordered by the implementation's compare",
     },
+    "C18": {
+        "props_module": "RedbModel.Props.C18",
+        "harness_dir": "harness-cursor",
+        "harness_bin": "vhc",
+        "streams": [("cursor", [], "cursor")],
+        "rule": "systematic: page 512, for every gap of a small table an ascending insert_before run and a descending insert_after run followed "
+                "by an equal key (must be rejected), remove_next/remove_prev then re-insert, close or drop; random programs over u64/bytes/str "
+                "keys, pages 512..4096, values 0..several pages: cursor sessions opened at every bound kind (lower/upper x Included/Excluded/"
+                "Unbounded) with random peek/next/prev/insert_before/insert_after (valid, unordered and equal keys, long single-direction runs "
+                "crossing the flush threshold)/remove_next/remove_prev, ended by close or drop, commit or abort, read-only cursors, ordinary "
+                "table calls in between, dump after each transaction; distinct by hash of lines, non-trivial if completed without panic",
+        "trusted_base": BASE_TRUST + ["modelled, not verified: observable behaviour of CursorMut/Cursor (table.rs, btree_cursor.rs) as the zipper CursorSpec; the tree-level splice (splice_insert_run) is not modelled"],
+        "assumptions": ["I/O-error and poisoning paths of cursors are not exercised here (C08)"],
+        "explanation": "Lean: bound gap laws, peek/next/prev laws, insert accepted iff strictly between neighbours and then equals Spec.insert, "
+                       "remove_next/prev equal Spec.remove, a whole session equals the fold of Spec edits (batching unobservable); "
+                       "correspondence on every cursor answer and the committed contents; sorted-vector + gap-index oracle",
+    },
 }
